@@ -65,6 +65,8 @@ struct Run {
         h |= (uint64_t) (s.r[SCPI_REG_OPER] ? 1 : 0) << 12;
         h |= (uint64_t) (s.r[SCPI_REG_QUES] ? 1 : 0) << 13;
         h |= (uint64_t) (stb & 0x13) << 14;
+        h |= (uint64_t) ((stb & 0xFF00) ? 1 : 0) << 20;
+        h |= (uint64_t) ((s.r[SCPI_REG_SRE] & 0xFF00) ? 1 : 0) << 21;
         return h;
     }
 
@@ -140,8 +142,8 @@ struct Run {
         reg = ((reg % SCPI_REG_COUNT) + SCPI_REG_COUNT) % SCPI_REG_COUNT;
         val &= 0xFFFF;
         if (reg == SCPI_REG_STB && kind <= K_CLRBITS) {
-            // only the non-summary bits 0, 1, 4 are in the history alphabet
-            val &= 0x13;
+            // only non-summary bits are in the history alphabet: 0, 1, 4 and the bits above 7
+            val &= 0xFF13;
             if (kind == K_REGSET) kind = K_SETBITS;
         }
         Snap before = snap();
@@ -380,7 +382,7 @@ std::string gen_unit(Rng &r, const GenOpts &g) {
     for (;;) {
         switch (r.below(22)) {
             case 0: if (no_enable) continue; return fmt("*ESE %d", gen_value(r) & 0xFF);
-            case 1: return fmt("*SRE %d", gen_value(r) & 0xFF);
+            case 1: return fmt("*SRE %d", r.chance(2, 3) ? (gen_value(r) & 0xFF) : gen_value(r));
             case 2: if (no_enable) continue; return fmt("STAT:OPER:ENAB %d", gen_value(r));
             case 3: if (no_enable) continue; return fmt("STAT:QUES:ENAB %d", gen_value(r));
             case 4: return "*CLS";
